@@ -259,6 +259,17 @@ fn api_sweep_one(set_mask: usize, t: &mut Tally) {
             d.insert_all();
             built.push(("insert_all", d));
         }
+        // long item lists: every member repeated, a new shape first appearing after position 4, 8, 33
+        if !shapes.is_empty() {
+            for reps in [4usize, 5, 8, 33] {
+                let mut long: Vec<Shape> = vec![];
+                for sh in &shapes {
+                    long.extend(std::iter::repeat(*sh).take(reps));
+                }
+                built.push(("new(each member repeated)", ShapeSet::new(long.clone())));
+                built.push(("collect(each member repeated)", long.into_iter().collect()));
+            }
+        }
         let flag = |i: usize| set_mask >> i & 1 == 1;
         for (how, other) in &built[1..] {
             for s in SHAPES {
